@@ -104,6 +104,7 @@ type Engine struct {
 	funIDs    map[string]uint32
 	zv        *zoneView
 	summaries map[string]bool
+	timedSleeps bool // time.Sleep in a goroutine parks it on a timer (verifTimedSleeps)
 	zoneTable []ZoneRow
 }
 
